@@ -2,6 +2,7 @@ package main
 
 import (
 	"go/types"
+	"strings"
 
 	"golang.org/x/tools/go/ssa"
 )
@@ -10,6 +11,7 @@ import (
 type Effects struct {
 	Fams map[string]Sort
 	All  bool // calls something unknown: may write anything
+	Why  string
 	// Calls lists static repo callees (for reports)
 	Calls map[string]bool
 }
@@ -35,8 +37,14 @@ func (P *Program) computeEffects(U *Universe) {
 			for _, in := range b.Instrs {
 				switch x := in.(type) {
 				case *ssa.Store:
+					if rootIsFresh(x.Addr, 0) {
+						continue // initialising an object this function allocated: not an effect on the caller's state
+					}
 					P.storeEffect(U, ef, x.Addr, x.Val.Type())
 				case *ssa.MapUpdate:
+					if rootIsFresh(x.Map, 0) {
+						continue
+					}
 					mt := x.Map.Type().Underlying().(*types.Map)
 					k, v := U.sortOf(mt.Key(), false), U.sortOf(mt.Elem(), false)
 					ef.Fams[mapHasFam(k, v)] = arraySort(SInt, arraySort(k, SBool))
@@ -60,6 +68,7 @@ func (P *Program) computeEffects(U *Universe) {
 				}
 				if ce.All && !ef.All {
 					ef.All = true
+					ef.Why = ce.Why
 					changed = true
 				}
 				for k, s := range ce.Fams {
@@ -166,6 +175,7 @@ func (P *Program) callEffect(U *Universe, ef *Effects, call ssa.CallInstruction,
 			}
 			if !found {
 				ef.All = true
+				ef.Why = fn.Name() + ": interface call " + typeName(recv) + "." + name
 			}
 		}
 		return
@@ -178,6 +188,9 @@ func (P *Program) callEffect(U *Universe, ef *Effects, call ssa.CallInstruction,
 			return
 		}
 		if ex := externEffects(externName(v)); ex != nil {
+			if strings.HasPrefix(externName(v), "strings.(*Builder).") && len(c.Args) > 0 && rootIsFresh(c.Args[0], 0) {
+				return // a builder local to this activation
+			}
 			for k, s := range ex {
 				ef.Fams[k] = s
 			}
@@ -187,6 +200,7 @@ func (P *Program) callEffect(U *Universe, ef *Effects, call ssa.CallInstruction,
 			return
 		}
 		ef.All = true
+		ef.Why = fn.Name() + ": call of " + externName(v)
 	case *ssa.Builtin:
 		switch v.Name() {
 		case "append", "copy":
@@ -222,6 +236,7 @@ func (P *Program) callEffect(U *Universe, ef *Effects, call ssa.CallInstruction,
 			}
 		}
 		ef.All = true
+		ef.Why = fn.Name() + ": call of a func value " + c.Value.Name()
 	}
 }
 
@@ -311,4 +326,24 @@ func (P *Program) closuresOfSig(pkg *ssa.Package, sig *types.Signature) ([]*ssa.
 		}
 	}
 	return out, true
+}
+
+// rootIsFresh: the address (or container) is rooted in an object allocated
+// by the same function activation.
+func rootIsFresh(v ssa.Value, depth int) bool {
+	if depth > 6 {
+		return false
+	}
+	switch x := v.(type) {
+	case *ssa.Alloc, *ssa.MakeMap, *ssa.MakeSlice:
+		return true
+	case *ssa.FieldAddr:
+		// a field of a fresh struct; but a pointer loaded from it is not fresh
+		return rootIsFresh(x.X, depth+1)
+	case *ssa.IndexAddr:
+		return rootIsFresh(x.X, depth+1)
+	case *ssa.Slice:
+		return rootIsFresh(x.X, depth+1)
+	}
+	return false
 }
